@@ -74,3 +74,9 @@ impl<B: Bitmap + Clone> VolatileSlice<B> {
 pub fn elements_in<T: Copy>(bytes: usize) -> usize {
     bytes / std::mem::size_of::<T>()
 }
+
+// R18.3: pointer difference in units of a generic element type without a zero-size guard
+pub fn elements_between<T: Copy>(start: *const T, end: *const T) -> usize {
+    // SAFETY: fixture only; never called.
+    unsafe { end.offset_from(start) as usize }
+}
